@@ -61,12 +61,19 @@ def gen(seed, tier, n):
         c['limit'] = rnd.choice([0, 1, 2, max(0, bl - 2), max(0, bl - 1), bl, bl + 1, bl + 2,
                                  rnd.randint(0, 5000), 1 << 20, httpgen.SIZE_MAX])
         segmode = rnd.choice([0, 0, 0, 1, 2, 2, 3])
+        if tag in ('valid', 'limit-edge', 'asis') and rnd.random() < 0.5:
+            # bodies exactly at / just around the limit, cut at the delicate offsets
+            c['limit'] = rnd.choice([bl, bl, bl + 1, max(0, bl - 1)])
+            segmode = 3
         if segmode == 1 and len(data) > 20000:
             segmode = 2
         chunks = None
         if segmode == 3:
-            k = rnd.randint(1, 6)
-            chunks = [rnd.choice([1, 2, 3, 4095, 4096, 4097, rnd.randint(1, max(1, len(data)))]) for _ in range(k)]
+            if tag in ('valid', 'limit-edge', 'asis') or rnd.random() < 0.5:
+                chunks = httpgen.explicit_chunks(rnd, c, len(data))
+            else:
+                k = rnd.randint(1, 6)
+                chunks = [rnd.choice([1, 2, 3, 4095, 4096, 4097, rnd.randint(1, max(1, len(data)))]) for _ in range(k)]
         cancel_after = rnd.randint(0, 12) if rnd.random() < 0.1 else -1
         endmode = rnd.choice([1, 1, 1, 1, 2]) if cancel_after < 0 else rnd.choice([0, 1, 2])
         outmode = rnd.choice([0, 0, 0, 1, 2])
